@@ -48,6 +48,15 @@ def tz(minutes):
 def enc(v):
     if v is None or isinstance(v, (bool, str)):
         return v
+    from vf.ref import special
+    if isinstance(v, special.Raw):
+        return {'$raw': v.text}
+    if isinstance(v, special.Repeat):
+        return {'$repeat': [enc(x) for x in v.values]}
+    if v is special.Absent:
+        return {'$absent': 1}
+    if v is special.Nil:
+        return {'$nil': 1}
     if isinstance(v, int):
         return v if abs(v) < 2 ** 53 else {'$i': str(v)}
     if isinstance(v, float):
@@ -84,6 +93,18 @@ def dec(j):
         return j
     if isinstance(j, list):
         return [dec(x) for x in j]
+    if '$raw' in j:
+        from vf.ref import special
+        return special.Raw(j['$raw'])
+    if '$repeat' in j:
+        from vf.ref import special
+        return special.Repeat([dec(x) for x in j['$repeat']])
+    if '$absent' in j:
+        from vf.ref import special
+        return special.Absent
+    if '$nil' in j:
+        from vf.ref import special
+        return special.Nil
     if '$i' in j:
         return int(j['$i'])
     if '$f' in j:
